@@ -4,6 +4,8 @@ import (
 	"errors"
 	"fmt"
 
+	"verif/rt"
+
 	"go.lstv.dev/util/date"
 	"go.lstv.dev/util/roman"
 	"go.lstv.dev/util/sem"
@@ -92,4 +94,25 @@ func configuredEpisode() {
 	}
 	date.Formatter, roman.Formatter, sem.Formatter, size.Formatter, uu.Formatter = oDF, oRF, oSF, oZF, oUF
 	date.Parser, roman.Parser, sem.Parser, size.Parser, uu.Parser = oDP, oRP, oSP, oZP, oUP
+}
+
+// tripleHistories runs every history of three steps over a small set of (input, configuration) steps on one
+// goroutine, nothing else running: what one call leaves behind for the next (a remembered input, a result kept per
+// rule) shows only when the calls are back to back. Each step is the property's ordinary monitored case.
+func tripleHistories(c *rt.Ctx, steps []func(w *rt.W)) {
+	c.Serial("three-call-histories", func(w *rt.W) {
+		for _, a := range steps {
+			for _, b := range steps {
+				for _, d := range steps {
+					a(w)
+					b(w)
+					d(w)
+				}
+			}
+		}
+		n := int64(len(steps))
+		w.ClassN("three-call-history", n*n*n)
+		w.NT(n * n * n)
+	})
+	c.Require("three-call-history", 1000)
 }
